@@ -786,7 +786,18 @@ impl Visitor<Diagnostic> for LibraryRenderer {
         &mut self,
         node: &FunctionBlockInitialValueAssignment,
     ) -> Result<Self::Value, Diagnostic> {
-        self.visit_type(&node.type_name)
+        self.visit_type(&node.type_name)?;
+
+        if !node.init.is_empty() {
+            self.write_ws(":=");
+            self.write_ws("(");
+
+            visit_comma_separated!(self, node.init.iter(), StructureElementInit);
+
+            self.write_ws(")");
+        }
+
+        Ok(())
     }
 
     // 2.4.3.2
